@@ -227,3 +227,7 @@ def run_for_native(vc):
         base.time = saved
     vc.ensures("took_whole_steps", ch.chain_length - n0 == steps[0] and steps[0] >= 1)
     vc.ensures("budget_used_up", Clock.now - 1000.0 >= minutes * 60.0)
+
+
+from contracts.mcmc_gibbs import gibbs_take_step
+contract("C15", "gibbs_take_step", native=False)(gibbs_take_step)
